@@ -57,6 +57,9 @@ class _World:
             aut = fol.Context()
         if self.symbolic:
             aut.bdd = specbdd.SpecBDD()
+        elif getattr(self, 'backend', None) == 'autoref':
+            import dd.autoref as _autoref
+            aut.bdd = _autoref.BDD()
         self.aut = aut
         self.bdd = aut.bdd
         if kind == 'automaton':
@@ -192,8 +195,9 @@ class SymWorld(_World):
 class ConcreteWorld(_World):
     symbolic = False
 
-    def __init__(self, shape, interp, kind='automaton'):
+    def __init__(self, shape, interp, kind='automaton', backend=None):
         """`interp(name, bits)` -> function from assignment tuple to bool."""
+        self.backend = backend
         self._setup(shape, kind)
         self.interp = interp
         self.failed = list()
